@@ -34,7 +34,39 @@ def breaksOut : Stmt → Bool
 
 theorem break_in_main_loop_rejected (pre body : Stmt) (h : breaksOut body = true) :
     (∃ e, tr { pre := pre, body := some body } = .error e) := by
-  sorry
+  have key : ∀ body, breaksOut body = true → ∀ te, ∃ e, trNested te true 0 body = .error e := by
+    intro body
+    induction body with
+    | brk => intro _ te; exact ⟨.breakInMainLoop, by simp [trNested]⟩
+    | seq a b iha ihb =>
+      intro hb te
+      simp only [breaksOut, Bool.or_eq_true] at hb
+      rw [trNested]
+      cases ha' : trNested te true 0 a with
+      | error e => exact ⟨e, rfl⟩
+      | ok a' =>
+        rcases hb with hb | hb
+        · obtain ⟨e, he⟩ := iha hb te; rw [he] at ha'; cases ha'
+        · obtain ⟨e, he⟩ := ihb hb te; rw [he]; exact ⟨e, rfl⟩
+    | ifs c a b iha ihb =>
+      intro hb te
+      simp only [breaksOut, Bool.or_eq_true] at hb
+      rw [trNested]
+      cases ha' : trNested te true 0 a with
+      | error e => exact ⟨e, rfl⟩
+      | ok a' =>
+        rcases hb with hb | hb
+        · obtain ⟨e, he⟩ := iha hb te; rw [he] at ha'; cases ha'
+        · obtain ⟨e, he⟩ := ihb hb te; rw [he]; exact ⟨e, rfl⟩
+    | _ => intro hb; simp [breaksOut] at hb
+  unfold tr
+  cases hacc : trTop {} pre with
+  | error e => exact ⟨e, rfl⟩
+  | ok acc =>
+    obtain ⟨e, he⟩ := key body h acc.te
+    refine ⟨e, ?_⟩
+    show (do let loop ← trNested acc.te true 0 body; pure _) = _
+    rw [he]; rfl
 
 /-- expression level: on well-typed expressions Python's value and C's value agree up to the declared-type
     conversion (the heart of the simulation) -/
@@ -42,8 +74,8 @@ theorem expr_preserved (te : C.TyEnv) (sp sc : Store) (e : Expr) (v : Val)
     (hwt : e.wt te = true)
     (hrel : ∀ x t, te.lookup x = some t → ∀ pv, sp.get x = some pv → sc.get x = some (C.conv t pv) ∧ (t = .bool → ∃ b, pv = .bool b))
     (hpy : Py.eval sp e = .ok v) :
-    C.eval te sc e = .ok (C.conv (inferTy te e) v) ∨ C.eval te sc e = .error .overflow := by
-  sorry
+    C.eval te sc e = .ok (C.conv (inferTy te e) v) ∨ C.eval te sc e = .error .overflow :=
+  Reduino.Lemmas.C01.expr_sim te sp sc hrel e v hwt hpy
 
 /-! ### the full statement fails outside the fragment -/
 
@@ -52,23 +84,30 @@ theorem and_or_value_counterexample :
     let p : Prog := { pre := .seq (.assign "x" (.int 0)) (.seq (.assign "y" (.int 5))
                         (.seq (.assign "z" (.or (.var "x") (.var "y"))) (.write (.bin .add (.var "z") (.int 0))))), body := none }
     Py.run p 0 50 = .ok [.write 5] ∧ (∃ c, tr p = .ok c ∧ C.run c 0 50 = .ok [.write 1]) := by
-  sorry
+  intro p
+  exact ⟨by rfl, _, rfl, by rfl⟩
 
 /-- `for i in range(n)` with `n` changed in the body: C re-evaluates the limit (K01h) -/
 theorem range_limit_counterexample :
     let p : Prog := { pre := .seq (.assign "n" (.int 3)) (.forRange "i" (.var "n")
                         (.seq (.assign "n" (.bin .sub (.var "n") (.int 1))) (.write (.bin .add (.var "i") (.int 0))))), body := none }
     Py.run p 0 50 = .ok [.write 0, .write 1, .write 2] ∧ (∃ c, tr p = .ok c ∧ C.run c 0 50 = .ok [.write 0, .write 1]) := by
-  sorry
+  intro p
+  exact ⟨by rfl, _, rfl, by rfl⟩
 
 theorem C01_statement_false : ¬ C01_statement := by
-  sorry
+  intro h
+  obtain ⟨hpy, c, htr, hc⟩ := and_or_value_counterexample
+  obtain ⟨fuel', hc'⟩ := h _ c 0 50 _ htr hpy
+  have := Reduino.Lemmas.C01.C_run_det hc hc'
+  exact absurd this (by decide)
 
 /-- non-vacuity: a program with control flow inside the fragment, accepted and run -/
 example :
     let p : Prog := { pre := .seq (.assign "a" (.int 2)) (.assign "f" (.cmp .lt (.int 1) (.int 2))),
                       body := some (.seq (.aug "a" .add (.int 1)) (.ifs (.and (.var "f") (.cmp .gt (.var "a") (.int 3))) (.write (.var "a")) .skip)) }
     InF p = true ∧ (∃ c, tr p = .ok c) ∧ Py.run p 3 50 = .ok [.write 4, .write 5] := by
-  sorry
+  intro p
+  exact ⟨by decide, ⟨_, rfl⟩, by rfl⟩
 
 end Reduino.Props.C01
